@@ -6,6 +6,15 @@
 pub use crate::alloc::{AllocError, AllocProxy, Allocator, CaoLangAllocator, SysAllocator};
 pub use crate::bytecode::{decode_str, encode_str, read_from_bytes, write_to_vec};
 pub use crate::vm::instr_execution::{decode_value, read_str};
+/// the interpreter's per-instruction functions, callable without the dispatch loop
+pub mod instr {
+    pub use crate::vm::instr_execution::{
+        begin_for_each, call_native, close_upvalues, execute_call_native, for_each, get_local,
+        instr_call_function, instr_copy_last, instr_len, instr_read_var, instr_return,
+        instr_set_var, instr_string_literal, push_call_frame, read_upvalue, register_upvalue,
+        set_local, write_upvalue,
+    };
+}
 
 use crate::instruction::Instruction;
 use std::convert::TryFrom;
